@@ -116,8 +116,11 @@ def _comment_replacement(*lines: str):
 
 
 class _IntrinsicInlineEntity:
-    def __init__(self, entity):
+    def __init__(self, entity, assignments=()):
         self.entity = entity
+        # pairs (signal, value) of signals that are connected to
+        # the entity instead of non-signal values
+        self.assignments = assignments
 
 
 #
